@@ -183,8 +183,8 @@ func (s *bindSys) ipOf(name string) string {
 			return s.own[1]
 		}
 		return "10.0.0.77" // not owned on a single-address host
-	case "any":
-		return "0.0.0.0"
+	case "any", "anynil":
+		return "0.0.0.0" // "anynil": a non-nil *net.UDPAddr whose IP is nil (the standard library's wildcard spelling), port kept
 	case "lo":
 		return "127.0.0.1"
 	case "lo2":
@@ -262,11 +262,19 @@ func (s *bindSys) Apply(op string) (obs, sig, msg string) {
 		var err error
 		switch f[0] {
 		case "listenudp":
-			c, err = s.n.ListenUDP("udp", &net.UDPAddr{IP: net.ParseIP(ip), Port: port})
+			la := &net.UDPAddr{IP: net.ParseIP(ip), Port: port}
+			if f[1] == "anynil" {
+				la.IP = nil
+			}
+			c, err = s.n.ListenUDP("udp", la)
 		case "listenpacket":
 			c, err = s.n.ListenPacket("udp", net.JoinHostPort(ip, strconv.Itoa(port)))
 		case "dialudp":
-			c, err = s.n.DialUDP("udp", &net.UDPAddr{IP: net.ParseIP(ip), Port: port}, &net.UDPAddr{IP: net.ParseIP("10.0.0.200"), Port: 9})
+			la := &net.UDPAddr{IP: net.ParseIP(ip), Port: port}
+			if f[1] == "anynil" {
+				la.IP = nil
+			}
+			c, err = s.n.DialUDP("udp", la, &net.UDPAddr{IP: net.ParseIP("10.0.0.200"), Port: 9})
 		case "dial":
 			dst := "10.0.0.200:9"
 			if f[1] == "lo" {
@@ -463,6 +471,7 @@ func runC13Body(tier string, shard, shards int, rep *SeqReport, lastOp, curFam *
 		}
 	}
 	balpha = append(balpha, "listenudp lo2 5000", "listenudp lo2 0 0")
+	balpha = append(balpha, "listenudp anynil 5000", "listenudp anynil 0 0", "dialudp anynil 5000")
 	balpha = append(balpha, "dial own1", "dial lo", "close 0", "close 1", "close 2", "reclose",
 		"probe own1 5000", "probe own2 5000", "probe lo 5000", "probe own1 5001", "probe own1 0")
 	bdepth, cap := 4, int64(150000)
@@ -562,7 +571,7 @@ func runC13Body(tier string, shard, shards int, rep *SeqReport, lastOp, curFam *
 
 func init() {
 	register(&Check{ID: "C13", Seq: runC13,
-		Rule: "router: BFS (depth 5/6) over attachment orders {automatic host, static .1/.2/.3/.5/.254, outside the subnet, two statics, child router automatic/static}, each static used at most once, for subnets /24, /16, /25, /30, plus 257 automatic attachments after nothing / a static .1 / .100 / .254; host: BFS (depth 4/5) over {ListenUDP, ListenPacket, DialUDP, Dial} x {own address 1, own address 2, wildcard, loopback, foreign} x {port 5000, 5001, 0 with PRNG offset 0/1/999}, Close(i), probe datagram to (ip,port), on hosts with one and two addresses, plus 998/999/1000 bound ports followed by port-0 binds; compared with a set model of assigned addresses / open sockets",
+		Rule: "router: BFS (depth 5/6) over attachment orders {automatic host, static .1/.2/.3/.5/.254, outside the subnet, two statics, child router automatic/static}, each static used at most once, for subnets /24, /16, /25, /30, plus 257 automatic attachments after nothing / a static .1 / .100 / .254; host: BFS (depth 4/5) over {ListenUDP, ListenPacket, DialUDP, Dial} x {own address 1, own address 2, wildcard (0.0.0.0 and a nil IP with the port kept), loopback, 127.0.0.2, foreign} x {port 5000, 5001, 0 with PRNG offset 0/1/999}, Close(i), probe datagram to (ip,port), on hosts with one and two addresses, plus 998/999/1000 bound ports followed by port-0 binds; compared with a set model of assigned addresses / open sockets",
 		Assumptions: []string{"a static address equal to one already in use is supplied at most never (left unconstrained by the property)",
 			"probe datagrams are injected at the host's NIC (routing is C01's subject)"}})
 }
